@@ -418,7 +418,7 @@ void OneDimensionalNodes::getChebyshev(int m, std::vector<double> &w, std::vecto
             }else{
                 b = 2.0;
             };
-            w[i] = w[i] - b * std::cos(2.0 * j * theta) / ((double) (4*j*j - 1));
+            w[i] = w[i] - b * std::cos(2.0 * j * theta) / (4.0 * ((double) j) * ((double) j) - 1.0);
         };
     };
 
@@ -527,9 +527,9 @@ double OneDimensionalNodes::getClenshawCurtisWeight(int level, int point){
     double weight = 1.0;
     double theta = ((double) ieffective) * Maths::pi / ((double) (n-1));
     for(int j=1; j<(n-1)/2; j++){
-        weight -= 2.0 * std::cos(2.0 * j * theta) / ((double) (4*j*j - 1));
+        weight -= 2.0 * std::cos(2.0 * j * theta) / (4.0 * ((double) j) * ((double) j) - 1.0);
     }
-    weight -= std::cos(2.0 * (n-1) * theta / 2.0) / ((double) (n*n - 2*n));
+    weight -= std::cos(2.0 * (n-1) * theta / 2.0) / (((double) n) * ((double) n) - 2.0 * ((double) n));
     weight /= (double) (n-1);
 
     if ((point != 1) && (point != 2)){ weight *= 2.0; }
@@ -566,9 +566,9 @@ double OneDimensionalNodes::getClenshawCurtisWeightZero(int level, int point){
     double weight = 1.0;
     double theta = ((double) ieffective) * Maths::pi / ((double) (n-1));
     for(int j=1; j<(n-1)/2; j++){
-        weight -= 2.0 * std::cos(2.0 * j * theta) / ((double) (4*j*j - 1));
+        weight -= 2.0 * std::cos(2.0 * j * theta) / (4.0 * ((double) j) * ((double) j) - 1.0);
     }
-    weight -= std::cos(2.0 * (n-1) * theta / 2.0) / ((double) (n*n - 2*n));
+    weight -= std::cos(2.0 * (n-1) * theta / 2.0) / (((double) n) * ((double) n) - 2.0 * ((double) n));
     weight /= (double) (n-1);
     weight *= 2.0;
 
@@ -604,7 +604,7 @@ double OneDimensionalNodes::getFejer2Weight(int level, int point){
     double weight = 1.0;
     double theta = ((double) (n-ieffective)) * Maths::pi / ((double) (n+1));
     for(int j=1; j<=(n-1)/2; j++){
-        weight -= 2.0 * std::cos(2.0 * j * theta) / ((double) (4*j*j - 1));
+        weight -= 2.0 * std::cos(2.0 * j * theta) / (4.0 * ((double) j) * ((double) j) - 1.0);
     }
     weight -= std::cos(((double) (n+1)) * theta) / ((double) (n));
     weight *= 2.0 / ((double) (n+1));
